@@ -57,6 +57,12 @@ def spd(rnd, d):
     return 0.5 * (m + m.T)
 
 
+def _normalize_history(rnd, obj):
+    """'after normalize()' holds after any history with at least one call: call it 1-3 times"""
+    for _ in range(rnd.choice([1, 1, 2, 3])):
+        obj.normalize()
+
+
 def leaf(rnd, d, normalized=False, allow=("normaldiag", "normalscalar", "normaldiagmatrix", "normalfull", "laplace", "uniform", "stdnormal", "himmelblau"),
          bounds_p=0.35):
     D = _hm()
@@ -83,7 +89,7 @@ def leaf(rnd, d, normalized=False, allow=("normaldiag", "normalscalar", "normald
         b = np.array([[rnd.choice([0.5, 1.0, 2.0, rnd.uniform(0.3, 3)])] for _ in range(d)])
         obj = D.Laplace(mu.copy(), b.copy(), lower_bounds=None if lb is None else lb.copy(), upper_bounds=None if ub is None else ub.copy())
         if normalized:
-            obj.normalize()
+            _normalize_history(rnd, obj)
         return Node(obj, f"laplace {vhex(mu)} {vhex(b)} {int(normalized)} {box_str(lb, ub)}", {"kind": k, "mu": mu.ravel().tolist(), "b": b.ravel().tolist()},
                     d, k, has_kinks=True, normalizable=True, lb=lb, ub=ub)
     if k in ("normaldiag", "normalscalar"):
@@ -96,7 +102,7 @@ def leaf(rnd, d, normalized=False, allow=("normaldiag", "normalscalar", "normald
             cov_arg = var.copy()
         obj = D.Normal(mu.copy(), cov_arg, lower_bounds=None if lb is None else lb.copy(), upper_bounds=None if ub is None else ub.copy())
         if normalized:
-            obj.normalize()
+            _normalize_history(rnd, obj)
         return Node(obj, f"normaldiag {vhex(mu)} {vhex(var)} {int(normalized)} {box_str(lb, ub)}",
                     {"kind": k, "mu": mu.ravel().tolist(), "var": var.ravel().tolist()}, d, k, normalizable=True, lb=lb, ub=ub)
     # full covariance, or a diagonal matrix given in matrix encoding
@@ -108,7 +114,7 @@ def leaf(rnd, d, normalized=False, allow=("normaldiag", "normalscalar", "normald
         cov = cov.reshape(1, 1)
     obj = D.Normal(mu.copy(), cov.copy(), lower_bounds=None if lb is None else lb.copy(), upper_bounds=None if ub is None else ub.copy())
     if normalized:
-        obj.normalize()
+        _normalize_history(rnd, obj)
     inv = np.linalg.inv(cov)
     L = np.linalg.cholesky(cov)
     return Node(obj, f"normalfull {vhex(mu)} {mhex(inv)} {mhex(L)} {int(normalized)} {box_str(lb, ub)}",
